@@ -109,8 +109,14 @@ func (b *bleveIndex) Search(terms []string) ([]string, error) {
 		}
 	}
 
+	// every matching document is wanted, not the first page of ten
+	count, err := b.index.DocCount()
+	if err != nil {
+		return nil, err
+	}
+
 	query := bleve.NewQueryStringQuery(strings.Join(terms, " "))
-	search := bleve.NewSearchRequest(query)
+	search := bleve.NewSearchRequestOptions(query, int(count), 0, false)
 
 	res, err := b.index.Search(search)
 	if err != nil {
